@@ -166,7 +166,8 @@ CLAIMED = {
         category="other",
         text="Deciding step (bounded): projection against an independent reference built from the relative matches, three styles, overlapping and out-of-order selections, document unchanged (monitors/c19.py). "
         "Under contract (discharged, but only a part of the claim): the per-match skeleton Query._select - non-containers give nothing; flat = selected values in selection order; relative / root hand each selected value with its relative / root location to the placement step, then compact; the document is only read. "
-        "The placement and compaction helpers (_patch_obj, _fix_sparse_arrays: an unbounded loop over a tree of mutable dictionaries) are not within the VC generator's reach.",
+        "_fix_sparse_arrays is proved one level at a time against its statement (modular recursion; `sorted` is an uninterpreted permutation, so the rank order itself is not proved). "
+        "_patch_obj is proved equal to the recursive statement of placement for every tree shape along locations of length <= 3 (tokens, value and all other members symbolic) - bounded in the length of the location, hence not counted as proved for all locations.",
         ref="5/C19",
         technique="bounded differential check against a reference projection; " + TECH + "for the Query._select skeleton only",
         note="Level other: the helpers that build the projected value are decided by the bounded part only. " + TRUST,
